@@ -29,9 +29,10 @@ only after the previous one was consumed by the thread it addresses):
 After the last event the script is "drained": readers get EOF, unless the stream
 is listed in case["never_eof"] (a descendant keeps the pipe open).
 
-Only in the harness process: invoke.runners.threading / ready_for_reading are
-replaced by shims that behave as the originals except for objects belonging to a
-ScriptedRunner (fake Timer, scripted readiness).
+Only in the harness process: threading.Timer and invoke.terminals.ready_for_reading
+(plus their `from ... import` copies in invoke.runners, if any) are replaced by
+dispatchers that behave as the originals except for objects belonging to a
+ScriptedRunner (scripted Timer, scripted readiness).
 """
 from __future__ import annotations
 
@@ -194,39 +195,48 @@ class FakeTimer:
         return False
 
 
-class _ThreadingShim:
-    """invoke.runners.threading: real module, except Timer for scripted runners"""
+_RealTimer = threading.Timer
 
-    def __init__(self, real):
-        self._real = real
 
-    def __getattr__(self, name):
-        return getattr(self._real, name)
+class _TimerDispatch(_RealTimer):
+    """threading.Timer in the harness process: a scripted timer for timers whose function belongs to a
+    ScriptedRunner, the real thing for everybody else.  Installed on the `threading` module itself, so
+    the code under test may reach Timer through any import style."""
 
-    def Timer(self, interval, function, *a, **kw):
+    def __new__(cls, interval, function, *a, **kw):
         owner = getattr(function, "__self__", None)
         if getattr(owner, "_verif_env", None) is not None:
-            return FakeTimer(interval, function)
-        return self._real.Timer(interval, function, *a, **kw)
+            return FakeTimer(interval, function)          # not an instance of cls: __init__ is not run
+        obj = _RealTimer.__new__(_RealTimer)
+        _RealTimer.__init__(obj, interval, function, *a, **kw)
+        return obj
 
 
 _installed = False
 
 
 def install():
-    """idempotent; harness process only"""
+    """idempotent; harness process only.  Patches at the source (threading.Timer,
+    invoke.terminals.ready_for_reading) and, only where such a name exists, the copies that
+    `from x import y` left in invoke.runners -- no import style of runners.py is assumed."""
     global _installed
     import invoke.runners as R
-    if _installed and isinstance(R.threading, _ThreadingShim):
+    import invoke.terminals as T
+    if _installed and threading.Timer is _TimerDispatch:
         return
-    R.threading = _ThreadingShim(threading)
-    orig_ready = R.ready_for_reading
+    threading.Timer = _TimerDispatch
+    if getattr(R, "Timer", None) is _RealTimer:
+        R.Timer = _TimerDispatch
+    orig_ready = T.ready_for_reading
 
     def ready_for_reading(input_):
         if isinstance(input_, ScriptedIn):
             return input_.env.in_ready()
         return orig_ready(input_)
-    R.ready_for_reading = ready_for_reading
+    ready_for_reading._verif_orig = orig_ready
+    T.ready_for_reading = ready_for_reading
+    if getattr(R, "ready_for_reading", None) is orig_ready:
+        R.ready_for_reading = ready_for_reading
     _installed = True
 
 
@@ -369,6 +379,10 @@ class Env:
                 if self.exit_observed and self.reap_echild:
                     raise ChildProcessError(10, "No child processes")
                 self.exit_observed = True
+                if self.kbd_after_reap:
+                    # ^C delivered inside the poll right after it saw (reaped) the exit, before it returns
+                    self.kbd_after_reap = False
+                    raise KeyboardInterrupt()
                 return True
             return False
 
@@ -606,19 +620,6 @@ def make_runner_class():
                 e.threads = r[0]
                 e.cv.notify_all()
             return r
-
-        @property
-        def has_dead_threads(self):
-            v = R.Runner.has_dead_threads.fget(self)
-            e = self._verif_env
-            with e.cv:
-                fire = e.kbd_after_reap and e.exit_observed
-                if fire:
-                    e.kbd_after_reap = False
-            if fire:
-                # a signal delivered right after the poll that saw (reaped) the exit
-                raise KeyboardInterrupt()
-            return v
 
         def read_proc_stdout(self, num_bytes):
             return self._verif_env.read_proc("out")
